@@ -56,7 +56,7 @@ for i in ids:
     names = []
     for d in sorted(glob.glob("/verif/seeded/%s*" % i)):
         base = os.path.basename(d)
-        if "-" in base and base.split("-")[0].rstrip("bcdefgh") == i:
+        if "-" in base and base.split("-")[0].rstrip("abcdefghijklmnopqrstuvwxyz") == i:
             names.append(base.split("-", 1)[1].replace("-", " "))
     earlier = ""
     if names:
